@@ -913,18 +913,18 @@ pub fn run(cfg: &Cfg) -> i32 {
         let _ = arity;
         for n in need {
             if cover.get(&format!("{} {}", w, n)) == 0 {
-                machinery_error(&format!("vacuous: C09 word {} never met outcome class {}", w, n));
+                vacuous(&format!("vacuous: C09 word {} never met outcome class {}", w, n));
             }
         }
     }
     let classes = ["nil", "flag", "int", "real", "str", "vec", "map", "bitstr", "tagged-int", "tagged-real"];
     for a in classes {
         if cover.get(&format!("types {}", a)) == 0 {
-            machinery_error(&format!("vacuous: C09 type matrix never supplied {} to a unary word", a));
+            vacuous(&format!("vacuous: C09 type matrix never supplied {} to a unary word", a));
         }
         for b in classes {
             if cover.get(&format!("types {},{}", a, b)) == 0 {
-                machinery_error(&format!("vacuous: C09 type matrix cell {},{} empty", a, b));
+                vacuous(&format!("vacuous: C09 type matrix cell {},{} empty", a, b));
             }
         }
     }
